@@ -19,7 +19,7 @@
 
 typedef struct {
     wcfg cfg; blob content; char *scheds; int closefds; char *ops; char *save;
-    deviation plan[8]; int nplan; int trace;   /* C12: environment answers for the write path (output and temp file) */
+    deviation plan[8]; int nplan; int trace; int meta;   /* C12: environment answers for the write path (output and temp file) */
 } wcase;
 typedef struct { wcase *cases; int n; } wctx;
 
@@ -113,7 +113,8 @@ static void run_one(int idx, FILE *out, void *vctx) {
     if(k->save && f.n > 4096) save_blob(k->save, &f);
     put_blob(out, "file", f.p, f.n);
     fputc('\n', out);
-    if(cl && k->scheds && strcmp(k->scheds, "-")) {
+    bool readback = k->scheds && strcmp(k->scheds, "-");
+    if(cl && (readback || k->meta)) {
         /* reopen stdio descriptors so later diagnostics do not land in data files */
         if(k->closefds > 0) {
             for(int i = 0; i < k->closefds && i < 3; i++) {
@@ -124,11 +125,18 @@ static void run_one(int idx, FILE *out, void *vctx) {
         real_lseek(ofd, 0, SEEK_SET);
         zckCtx *v = zck_create();
         int vo = zck_init_read(v, ofd);
-        int val = vo ? zck_validate_checksums(v) : 0;
+        int val = vo && readback ? zck_validate_checksums(v) : 0;
         fprintf(out, "V %d open=%d validate=%d\n", idx, vo, val);
+        if(vo && k->meta) {
+            char pre[32];
+            snprintf(pre, sizeof pre, "M %d", idx);
+            zck_clear_error(v);
+            dump_meta(v, out, pre);
+            fputc('\n', out);
+        }
         zck_free(&v);
         int **sc, *ln;
-        int ns = parse_scheds(k->scheds, &sc, &ln);
+        int ns = readback ? parse_scheds(k->scheds, &sc, &ln) : 0;
         for(int s = 0; s < ns; s++) {
             read_res r = lib_read_all(ofd, sc[s], ln[s], k->content.n * 2 + 65536, false);
             fprintf(out, "R %d sched=%d", idx, s);
@@ -160,6 +168,7 @@ int cmd_writehist(FILE *job, FILE *out) {
         else if(!strcmp(t[0], "save")) cur.save = strdup(t[1]);
         else if(!strcmp(t[0], "plan")) cur.nplan = parse_plan(t[1], cur.plan, 8);
         else if(!strcmp(t[0], "trace")) cur.trace = atoi(t[1]);
+        else if(!strcmp(t[0], "meta")) cur.meta = atoi(t[1]);
         else if(!strcmp(t[0], "chunk")) chunk = atoi(t[1]);
         else if(!strcmp(t[0], "timeout")) timeout = atoi(t[1]);
         else if(!strcmp(t[0], "hist")) {
